@@ -121,7 +121,7 @@ def flipsCore (O : Query → IO Bytes) (sid beta : Bytes) (vx : List (List Bytes
     let h ← if p < A_BITS then receiverMu O sid beta VX m'
             else if p < A_BITS + E_BITS then muHashOf O sid (muReceiver theta0 beta VX AT0 (m'.eta.map ofBe))
             else pure h0
-    if m'.muHash ≠ h then pure "0" else do
+    if checkOk m' h = false then pure "0" else do
       let g ← match ← gref.get with
         | some g => pure g
         | none => do let g ← gadgetVec O sid; gref.set (some g); pure g
